@@ -297,18 +297,24 @@ const handlers = {
     const datas = req.data.map((s) => evalData(s, pool))
     const mism = []
     let inst
+    // wx:key values must be unique within a list (documented); the runtime warns and renames shared keys by position,
+    // after which a keyed update is not defined by the data diff any more: such histories leave the domain (counted)
+    const dupKeys = () => stub.warnings.some((w) => w.includes('keys are not unique'))
+    stub.warnings.length = 0
     try {
       inst = instantiate(G, req.entry)
       inst.w.create(datas[0])
     } catch (e) {
       return { steps: [], createThrew: String(e && e.stack || e) }
     }
+    if (dupKeys()) return { steps: [], domainExit: 'non-unique-keys' }
     const steps = []
     for (let i = 1; i < datas.length; i += 1) {
       const U = reviveTree(req.trees[i - 1])
       let updThrew = null; let freshThrew = null; let fresh; let cur
       try { inst.w.update(datas[i], U); cur = dumpRoot(inst.root) } catch (e) { updThrew = String(e && e.stack || e) }
       try { const f = instantiate(G, req.entry); f.w.create(datas[i]); fresh = dumpRoot(f.root) } catch (e) { freshThrew = String(e && e.stack || e) }
+      if (dupKeys()) { steps.push({ step: i, mismatches: [], domainExit: 'non-unique-keys' }); break }
       const m = []
       if (updThrew !== null || freshThrew !== null) {
         if ((updThrew === null) !== (freshThrew === null)) {
